@@ -335,10 +335,10 @@ func LiveMPD(a *asset, mpdName string, cfg *ResponseConfig, drmCfg *drm.DrmConfi
 			return nil, fmt.Errorf("lastPeriodStartTime: %w", err)
 		}
 	} else {
-		// A new Period appears at its start, before its first segment is listed: that changes the MPD too.
+		// A new Period that appears at its start, before its first segment is listed, changes the MPD too.
 		ast, errA := mpd.AvailabilityStartTime.ConvertToSeconds()
 		pub, errP := mpd.PublishTime.ConvertToSeconds()
-		if errA == nil && errP == nil {
+		if errA == nil && errP == nil && periodIsEmpty(mpd.Periods[len(mpd.Periods)-1]) {
 			lastStartMS := int64(math.Round((ast + time.Duration(*mpd.Periods[len(mpd.Periods)-1].Start).Seconds()) * 1000))
 			if lastStartMS > int64(math.Round(pub*1000)) && lastStartMS <= int64(wTimes.nowMS) {
 				mpd.PublishTime = m.ConvertToDateTimeMS(lastStartMS)
@@ -376,6 +376,16 @@ func firstAndLastSegmentStart(ss []*m.S) (first, last uint64, ok bool) {
 		t += uint64(s.R+1) * s.D
 	}
 	return first, last, true
+}
+
+// periodIsEmpty tells whether no SegmentTimeline of the period lists a segment.
+func periodIsEmpty(p *m.Period) bool {
+	for _, as := range p.AdaptationSets {
+		if as.SegmentTemplate != nil && as.SegmentTemplate.SegmentTimeline != nil && len(as.SegmentTemplate.SegmentTimeline.S) > 0 {
+			return false
+		}
+	}
+	return true
 }
 
 func lastPeriodStartTime(mpd *m.MPD) (m.DateTime, error) {
